@@ -56,6 +56,14 @@ def run(e: Engine, rep: Report):
     r24(e, rep)
     r24_kinds(e, rep)
     r25(e, rep)
+    rep.rule('R2.6', 'the greenlets Queue._pool_imap joins are the ones '
+             'running the given function: the spawn callable is '
+             '<pool>.spawn, or a wrapper every return of which is a '
+             '.spawn(<its function parameter>, ...)')
+    r26(e, rep)
+    rep.rule('R2.7', 'who-may-accept in the HTTP edge: a 2xx Reply is built '
+             'only after self.handoff(...) on every path')
+    r27(e, rep)
     rep.floor('R2.1', 4, 'reply decision sites')
 
 
@@ -754,3 +762,116 @@ def r25(e: Engine, rep: Report):
               'of another one' % short, loc=ctx.func.loc(),
               reason='single binding, no mutation, passed to _pool_imap('
               'store.write) and zip()')
+
+
+# -------------------------------------------------------------------- R2.6
+def r26(e: Engine, rep: Report):
+    """What _pool_imap waits for must be the greenlets that RUN the writes.
+    The spawn callable has to hand back a greenlet whose function is the one
+    given to it: `<pool>.spawn(func, ...)`.  A wrapper that may return a
+    greenlet running something else (a waiter that only *starts* the write
+    later, as Queue._pool_spawn does for a caller holding a pool slot) makes
+    join() return before the write finished: its value - another greenlet -
+    is taken for the id."""
+    ctx = e.method_ctx(QUEUE, '_pool_imap')
+    fn = ctx.func.node
+    where = ctx.func.qname
+    sites = []
+    for x in walk_own(fn):
+        if not isinstance(x, ast.Call):
+            continue
+        f = x.func
+        # map(<spawner>, repeat(func), ...) / <spawner>(func, ...)
+        if isinstance(f, ast.Name) and f.id in ('map', 'imap', 'starmap') \
+                and x.args and isinstance(x.args[0], ast.Attribute):
+            sites.append((x, x.args[0]))
+        elif isinstance(f, ast.Attribute) and (
+                f.attr == 'spawn' or (
+                    isinstance(f.value, ast.Name) and f.value.id == 'self'
+                    and 'spawn' in f.attr)):
+            sites.append((x, f))
+    if not sites:
+        rep.error('anchor vanished: spawn sites in Queue._pool_imap')
+        return
+    c = common.merged_class(e, QUEUE)
+    for call, sp in sites:
+        rep.evaluations += 1
+        ok, why = True, 'spawns through %s' % ast.unparse(sp)
+        if isinstance(sp.value, ast.Name) and sp.value.id == 'self' and \
+                sp.attr in c.methods:
+            # a method of the queue: every value it returns must be a
+            # greenlet running the function it was given
+            m = c.methods[sp.attr]
+            prm = m.params[1:]
+            bad = []
+            for r in walk_own(m.node):
+                if not isinstance(r, ast.Return):
+                    continue
+                v = r.value
+                good = isinstance(v, ast.Call) and \
+                    isinstance(v.func, ast.Attribute) and \
+                    v.func.attr == 'spawn' and v.args and \
+                    isinstance(v.args[0], ast.Name) and \
+                    v.args[0].id in prm
+                if not good:
+                    bad.append(ast.unparse(v) if v is not None else 'None')
+            ok = not bad
+            why = 'self.%s can return `%s`' % (sp.attr, bad[0][:60]) \
+                if bad else why
+        rep.check(ok, 'R2.6', where,
+                  'the joined greenlets run the writes themselves',
+                  '_pool_imap spawns through %s, which does not always '
+                  'return the greenlet that runs the given function (%s): '
+                  'join() returns before the write finished and the '
+                  'greenlet object it returned is taken for the message id '
+                  '- the client is told 250 before (and whether or not) '
+                  'the message was written' % (ast.unparse(sp), why),
+                  loc=ctx.func.loc(call), reason=why)
+
+
+# -------------------------------------------------------------------- R2.7
+def r27(e: Engine, rep: Report):
+    """Who may say "accepted" in the HTTP edge: a success reply (a Reply
+    with a 2xx code, which becomes the 2xx HTTP status) is built only where
+    the hand-off to the queue has happened on every path before."""
+    m = e.p.modules.get('slimta.edge.wsgi')
+    if m is None:
+        rep.error('anchor vanished: module slimta.edge.wsgi')
+        return
+    n = 0
+    for f in e.p.functions.values():
+        if f.module is not m:
+            continue
+        sites = []
+        for x in walk_own(f.node):
+            if isinstance(x, ast.Call) and \
+                    ast.unparse(x.func).rpartition('.')[2] == 'Reply' and \
+                    x.args and isinstance(x.args[0], ast.Constant) and \
+                    str(x.args[0].value).startswith('2'):
+                sites.append(x)
+        if not sites:
+            continue
+        ctx = Ctx(f, f.cls.qname if f.cls is not None else None)
+        g = e.build(ctx, raises=lambda b, nn, r: set())
+        rep.functions.add(f.qname)
+        before = dataflow.must_events_before(
+            g, lambda nn: ['handoff'] if nn.kind == 'call' and
+            e.call_name(nn) == 'handoff' else [])
+        for x in sites:
+            n += 1
+            rep.evaluations += 1
+            nodes = [nn for nn in g.nodes if nn.kind == 'call' and
+                     nn.ast is x]
+            ok = bool(nodes) and all(
+                'handoff' in (before.get(nn.id) or ()) for nn in nodes)
+            rep.check(ok, 'R2.7', f.qname,
+                      'success reply `%s` only after the hand-off'
+                      % ' '.join(ast.unparse(x).split())[:50],
+                      'the HTTP edge can answer with a success reply on a '
+                      'path on which the message was not handed to the '
+                      'queue in this request: the client is told the '
+                      'message was accepted although nothing was (or is '
+                      'yet) written', loc=f.loc(x),
+                      reason='self.handoff(...) on every path before')
+    if n < 1:
+        rep.error('anchor vanished: success replies in slimta.edge.wsgi')
